@@ -9,6 +9,7 @@ import (
 	"fmt"
 	"io"
 	"strings"
+	"testing/iotest"
 
 	"github.com/WICG/webpackage/go/signedexchange/certurl"
 	"github.com/WICG/webpackage/go/zz_verif/gen"
@@ -118,8 +119,15 @@ func checkChain(r *mon.Run, es []elem, class string, sampleEvery int) {
 	var rerr error
 	mem := append([]byte{}, want...) // the caller's memory, reused as soon as the call has returned
 	var src io.Reader = bytes.NewReader(mem)
-	if nCase%2 == 0 {
+	switch nCase % 5 {
+	case 0:
 		src = bytes.NewBuffer(mem)
+	case 1:
+		src = iotest.OneByteReader(bytes.NewReader(mem))
+	case 2:
+		src = iotest.HalfReader(bytes.NewReader(mem))
+	case 3:
+		src = iotest.DataErrReader(bytes.NewReader(mem))
 	}
 	p, pv = r.Call("read/"+d, want, func() { got, rerr = certurl.ReadCertChain(src) })
 	for i := range mem {
